@@ -14,13 +14,13 @@ PROPS = {
         "assumptions": ["encoding/json round trip of add/remove payloads is not modelled (exercised by applying the real events through the real handlers)"],
     },
     "C14": {
-        "suites": [("pure", "rid"), ("pure", "rpc")],
+        "suites": [("pure", "rid"), ("pure", "rpc"), ("pure", "path"), ("gw", "mixed")],
         "theorems_carry": "validator specs for all byte strings; {cid} expansion preserves validity; every subject of a dispatched WebSocket request is hygienic; no dot => no service traffic",
         "correspondence_only": "HTTP path mapping (net/url), that the gateway builds subjects as the model's subjectsFor does",
         "assumptions": ["rune iteration of IsValidRID equals the byte loop (tied by the 256-byte class table and exhaustive short strings)"],
     },
     "C17": {
-        "suites": [("pure", "headers"), ("pure", "origins")],
+        "suites": [("pure", "status"), ("pure", "headers"), ("pure", "origins"), ("gw", "mixed")],
         "theorems_carry": "status tables (regenerated, decided), default 400 for every other code, direct-status range for every integer, protected headers for every header set and every spelling, Set-Cookie accumulation, origin acceptance iff equal ignoring ASCII case for all byte strings",
         "correspondence_only": "that a direct status ends the request without further service requests and that refusal precedes any service request (gateway-level runs)",
         "assumptions": ["net/http drops header names that are not tokens", "allow-list entries are lower-cased by Config.prepare (validateAllowOrigin)"],
@@ -103,5 +103,25 @@ PROPS = {
         "theorems_carry": "malformed / wrong-kind / out-of-range state events are discarded as a whole (resource unchanged, nothing delivered); the matcher never indexes out of range; the throttle panics only on Done at zero",
         "correspondence_only": "process-level crash freedom: the gateway runs without recover inside the harness; a crash is a violation with the logged history as replay; corpus of two fixed crashes is replayed",
         "assumptions": ["panics inside encoding/json, gorilla, net/http are out of scope"],
+    },
+
+    "C16": {
+        "suites": [("pure", "encode"), ("pure", "path"), ("gw", "mixed"), ("gw", "refs")],
+        "theorems_carry": "the expansion terminates with a body on every finite closed graph (cycles of any length, self references, shared children), for both encoders; path re-entry and soft references are href only; data values unwrapped; failed references rendered as their error",
+        "correspondence_only": "that the encoders' output equals the recursive expansion as JSON (differential run on random graphs against the real encoders built on synthetic Subscription trees, compared as JSON trees; HTTP GET through the real gateway in lockstep incl. status and body); POST result / 204 / Location and HEAD are not modelled",
+        "assumptions": ["leaf values are well-formed JSON (validated by encoding/json on entry)", "references of a loaded subscription always resolve (closed graph)"],
+    },
+
+    "C20": {
+        "suites": [("pure", "svc")],
+        "theorems_carry": "the service shell's state machine: no connection unless running, Stop idempotent, the stop value is the cause and is sent exactly once per Stop for every operation sequence, restart possible, well-formedness invariant",
+        "correspondence_only": "socket closure, HTTP 503 after the fault, stop channel value, bounded duration and restart on the real Service (words over start/stop/connection-loss/connect/http with idle client sockets); Stop in the middle of gateway work (pending requests, evictions) is exercised at the end of every gw history only. Known finding D20.",
+        "assumptions": ["partial: socket closure, goroutine exit and wall-clock bounds are runtime behaviour the model cannot exhibit", "Stop/Start are called sequentially by the harness"],
+    },
+    "C18": {
+        "suites": [("pure", "nats")],
+        "theorems_carry": "the per-request completion machine: for every order of replies, pre-responses (timeout extensions), no-responder statuses and timer fires the callback runs at most once, never after completion; a pending request always owns a live timer whose firing completes it with system.timeout; the first real reply wins; the control-line guard refuses exactly the subjects whose PUB line would not fit",
+        "correspondence_only": "the real adapter against an in-harness NATS text-protocol server: scripted reply/pre-response/503/silence behaviours (callback count and kind equal the model's), over-long subjects, event delivery order per subscription, closed handler after connection loss, subject lengths around the control-line limit (the server never sees an over-long line). Defect D6 (guard ignoring separators and size digits) repaired in /repo.",
+        "assumptions": ["partial: timers are real time; that a live timer fires, and races between a reply and a timer firing at the same instant, are runtime behaviour the model cannot exhibit (the adapter serialises them with a mutex; the harness only observes the callback count)", "the fake server implements the subset of the NATS protocol the client uses (INFO/CONNECT/PING/PONG/SUB/UNSUB/PUB/MSG/HMSG) and nats-server's control-line check"],
     },
 }
